@@ -305,12 +305,14 @@ where
     /// If the resulting intersection domain is non-zero, the
     /// substitution is not possible, the constraint fails and `None` is returned.
     fn process_extension_fd(mut self, extension: &SMap<U, E>) -> SResult<U, E> {
-        let dstore = self.get_dstore();
         for (x, v) in extension.iter() {
-            match dstore.get(x) {
+            // The domain store and the substitution may have been changed by the bindings
+            // processed so far; use their current contents for each binding.
+            match self.dstore_ref().get(x).cloned() {
                 Some(domain) => {
+                    let vwalk = self.smap_ref().walk(v).clone();
                     self = self
-                        .process_domain(v, domain.clone())?
+                        .process_domain(&vwalk, domain)?
                         .remove_domain(x)?
                         .run_constraints()?
                 }
